@@ -1,19 +1,70 @@
-(** SEED (spike): TaskLane LTS without panics / producers / status observers. To be extended per DESIGN.md section 4 (C06-C08, C14). *)
+(** TaskLane LTS: model of /repo/tasklane/tasklane.go (startQueue, startWorker, PushTask, Status, New)
+    for any laneSize, any queueSize (including 0), any number of producers and Status() observers.
+    Interface fixed in docs/TASKLANE.md. No proofs here.
+
+    Conventions
+    - every label is one atomic action of one goroutine (or one rendezvous of two on an unbuffered channel);
+    - all logs ([accepted], [started], [finished], [panics], [pushed], [failed], [snaps]) are
+      most-recent-first (new entries are consed);
+    - task ids are unique per history: [PushBegin p i t] is disabled when [t] was pushed before
+      (field [pushed]); the harness chooses fresh ids, so this is a naming convention, not a restriction
+      of behaviour;
+    - [PushBegin p i t] with the context live and [i] out of range is disabled (the Go code panics with
+      an index error there; not modelled, the harness never does it);
+    - a [select] with several ready cases may take any of them; [default] branches (QTryFail, WTryFail)
+      are always enabled (deliberately permissive). *)
 From Coq Require Import List Arith Bool Lia.
 Import ListNotations.
 
 Definition task := nat.
-Inductive qpc := QWait | QTook (t:task) | QHeld (t:task) | QTry (t:task) | QOffer (t:task) | QSent | QDead (o: option task).
-Inductive wpc := WTop | WTry | WBlock | WRun (t:task) | WDead.
+Definition pv := nat.
+
+Inductive qpc :=
+| QWait                 (* at the first select: <-Done / <-buffered[i] *)
+| QTook (t:task)        (* received t, before blockingTaskCnt.Add(1) *)
+| QHeld (t:task)        (* counted, before the select { <-Done / default } *)
+| QTry (t:task)         (* at the non-blocking send to blocking[i] *)
+| QOffer (t:task)       (* parked in the blocking select: <-Done / blocking[i]<- / universal<- *)
+| QSent                 (* handed over, before blockingTaskCnt.Add(-1) *)
+| QDead (o: option task)(* returned; Some t = returned while holding t (t is dropped, stays counted) *).
+Inductive wpc :=
+| WTop                  (* at the loop top select { <-Done / default } *)
+| WTry                  (* at the non-blocking receive from blocking[j] *)
+| WBlock                (* parked in the blocking select: <-Done / <-blocking[j] / <-universal *)
+| WRun (t:task)         (* inside task.Start() (receive and Start() are one step) *)
+| WDead.
 Record lane := mkLane { buf : list task; q : qpc; w : wpc }.
-Record state := mkSt { lanes : list lane; cancelled : bool; cnt : nat;
-   accepted : list task; started : list task; finished : list task }.
+
+Inductive result := ROk | RCtxErr | RTimeout.
+Inductive pstate := Idle | Pending (i:nat) (t:task) | Done (t:task) (r:result).
+(* observer: OLen k a = lanes 0..k-1 read, sum a; OPanic a = counter read too, sum a *)
+Inductive ostate := OIdle | OLen (k a:nat) | OPanic (a:nat).
+
+Record state := mkSt {
+  lanes : list lane; cancelled : bool; cnt : nat;
+  accepted : list task; started : list task; finished : list task;
+  last_panic : option pv; panics : list pv;
+  prods : list (nat * pstate);
+  obs : list (nat * ostate);
+  pushed : list task;                       (* every task id a PushTask call was begun with *)
+  failed : list task;                       (* tasks whose PushTask returned an error *)
+  snaps : list (nat * nat * option pv)      (* completed Status() calls: (observer, PendingTask, LastPanic) *)
+}.
 
 Inductive label :=
-| Push (i:nat) (t:task) | Cancel
+| PushBegin (p i:nat) (t:task) | PushOk (p:nat) | PushCtxErr (p:nat) | PushTimeout (p:nat)
+| Cancel
 | QTake (i:nat) | QDie (i:nat) | QCount (i:nat) | QCheck (i:nat)
 | QTryOwn (i:nat) | QTryFail (i:nat) | QOfferOwn (i:nat) | QOfferUni (i j:nat) | QDecr (i:nat)
-| WCheck (j:nat) | WTryFail (j:nat) | WDie (j:nat) | WEnd (j:nat).
+| WCheck (j:nat) | WTryFail (j:nat) | WDie (j:nat) | WEnd (j:nat) (r:option pv)
+| StatusBegin (o:nat) | StatusReadLen (o i:nat) | StatusReadCnt (o:nat) | StatusReadPanic (o:nat).
+
+Definition internal (l : label) : bool :=
+  match l with
+  | QTake _ | QDie _ | QCount _ | QCheck _ | QTryOwn _ | QTryFail _ | QOfferOwn _ | QOfferUni _ _ | QDecr _
+  | WCheck _ | WTryFail _ | WDie _ => true
+  | _ => false
+  end.
 
 Fixpoint upd {A} (l : list A) (i : nat) (x : A) : list A :=
   match l, i with
@@ -22,13 +73,64 @@ Fixpoint upd {A} (l : list A) (i : nat) (x : A) : list A :=
   | h :: t, S k => h :: upd t k x
   end.
 
-Section Step.
-Variable qsize : nat.
+(* association lists keyed by producer / observer id *)
+Fixpoint aget {A} (d : A) (l : list (nat * A)) (k : nat) : A :=
+  match l with
+  | [] => d
+  | kv :: r => if Nat.eqb k (fst kv) then snd kv else aget d r k
+  end.
+Fixpoint aset {A} (l : list (nat * A)) (k : nat) (v : A) : list (nat * A) :=
+  match l with
+  | [] => [(k, v)]
+  | kv :: r => if Nat.eqb k (fst kv) then (k, v) :: r else kv :: aset r k v
+  end.
 
 Definition setl (s : state) (i : nat) (ln : lane) : state :=
-  mkSt (upd (lanes s) i ln) (cancelled s) (cnt s) (accepted s) (started s) (finished s).
+  mkSt (upd (lanes s) i ln) (cancelled s) (cnt s) (accepted s) (started s) (finished s)
+       (last_panic s) (panics s) (prods s) (obs s) (pushed s) (failed s) (snaps s).
+Definition set_cancelled (s : state) (c : bool) : state :=
+  mkSt (lanes s) c (cnt s) (accepted s) (started s) (finished s)
+       (last_panic s) (panics s) (prods s) (obs s) (pushed s) (failed s) (snaps s).
+Definition set_cnt (s : state) (n : nat) : state :=
+  mkSt (lanes s) (cancelled s) n (accepted s) (started s) (finished s)
+       (last_panic s) (panics s) (prods s) (obs s) (pushed s) (failed s) (snaps s).
+Definition set_accepted (s : state) (x : list task) : state :=
+  mkSt (lanes s) (cancelled s) (cnt s) x (started s) (finished s)
+       (last_panic s) (panics s) (prods s) (obs s) (pushed s) (failed s) (snaps s).
+Definition set_started (s : state) (x : list task) : state :=
+  mkSt (lanes s) (cancelled s) (cnt s) (accepted s) x (finished s)
+       (last_panic s) (panics s) (prods s) (obs s) (pushed s) (failed s) (snaps s).
+Definition set_finished (s : state) (x : list task) : state :=
+  mkSt (lanes s) (cancelled s) (cnt s) (accepted s) (started s) x
+       (last_panic s) (panics s) (prods s) (obs s) (pushed s) (failed s) (snaps s).
+Definition set_panic (s : state) (v : pv) : state :=
+  mkSt (lanes s) (cancelled s) (cnt s) (accepted s) (started s) (finished s)
+       (Some v) (v :: panics s) (prods s) (obs s) (pushed s) (failed s) (snaps s).
+Definition set_prods (s : state) (x : list (nat * pstate)) : state :=
+  mkSt (lanes s) (cancelled s) (cnt s) (accepted s) (started s) (finished s)
+       (last_panic s) (panics s) x (obs s) (pushed s) (failed s) (snaps s).
+Definition set_obs (s : state) (x : list (nat * ostate)) : state :=
+  mkSt (lanes s) (cancelled s) (cnt s) (accepted s) (started s) (finished s)
+       (last_panic s) (panics s) (prods s) x (pushed s) (failed s) (snaps s).
+Definition set_pushed (s : state) (x : list task) : state :=
+  mkSt (lanes s) (cancelled s) (cnt s) (accepted s) (started s) (finished s)
+       (last_panic s) (panics s) (prods s) (obs s) x (failed s) (snaps s).
+Definition set_failed (s : state) (x : list task) : state :=
+  mkSt (lanes s) (cancelled s) (cnt s) (accepted s) (started s) (finished s)
+       (last_panic s) (panics s) (prods s) (obs s) (pushed s) x (snaps s).
+Definition set_snaps (s : state) (x : list (nat * nat * option pv)) : state :=
+  mkSt (lanes s) (cancelled s) (cnt s) (accepted s) (started s) (finished s)
+       (last_panic s) (panics s) (prods s) (obs s) (pushed s) (failed s) x.
+
+Definition pstate_of (s : state) (p : nat) : pstate := aget Idle (prods s) p.
+Definition ostate_of (s : state) (o : nat) : ostate := aget OIdle (obs s) o.
+Definition is_pending (x : pstate) : bool := match x with Pending _ _ => true | _ => false end.
+
 Definition receptive_own (x : wpc) := match x with WTry | WBlock => true | _ => false end.
 Definition receptive_uni (x : wpc) := match x with WBlock => true | _ => false end.
+
+Section Step.
+Variable qsize : nat.
 
 (* hand task t from queue of lane i (moving it to QSent) to worker of lane j *)
 Definition handover (s : state) (i j : nat) (t : task) : option state :=
@@ -37,22 +139,60 @@ Definition handover (s : state) (i j : nat) (t : task) : option state :=
     let s1 := setl s i (mkLane (buf li) QSent (w li)) in
     match nth_error (lanes s1) j with
     | Some lj => let s2 := setl s1 j (mkLane (buf lj) (q lj) (WRun t)) in
-        Some (mkSt (lanes s2) (cancelled s2) (cnt s2) (accepted s2) (t :: started s2) (finished s2))
+        Some (set_started s2 (t :: started s2))
     | None => None
     end
   | None => None
   end.
 
+(* the channel send of PushTask on lane li: an enqueue when queueSize >= 1 (needs room), a rendezvous
+   with the queue goroutine waiting at its first select when queueSize = 0 *)
+Definition push_lane (li : lane) (t : task) : option lane :=
+  if qsize =? 0 then
+    match q li with
+    | QWait => Some (mkLane (buf li) (QTook t) (w li))
+    | _ => None
+    end
+  else if length (buf li) <? qsize then Some (mkLane (buf li ++ [t]) (q li) (w li))
+  else None.
+
 Definition step (s : state) (l : label) : option state :=
   match l with
-  | Push i t =>
-    match nth_error (lanes s) i with
-    | Some li => if (length (buf li) <? qsize) && negb (existsb (Nat.eqb t) (accepted s))
-                 then let s1 := setl s i (mkLane (buf li ++ [t]) (q li) (w li)) in
-                      Some (mkSt (lanes s1) (cancelled s1) (cnt s1) (t :: accepted s1) (started s1) (finished s1))
-                 else None
-    | None => None end
-  | Cancel => if cancelled s then None else Some (mkSt (lanes s) true (cnt s) (accepted s) (started s) (finished s))
+  | PushBegin p i t =>
+    if is_pending (pstate_of s p) then None
+    else if existsb (Nat.eqb t) (pushed s) then None
+    else if cancelled s then
+      Some (set_failed (set_pushed (set_prods s (aset (prods s) p (Done t RCtxErr))) (t :: pushed s)) (t :: failed s))
+    else if i <? length (lanes s) then
+      Some (set_pushed (set_prods s (aset (prods s) p (Pending i t))) (t :: pushed s))
+    else None
+  | PushOk p =>
+    match pstate_of s p with
+    | Pending i t =>
+      match nth_error (lanes s) i with
+      | Some li =>
+        match push_lane li t with
+        | Some li' =>
+          Some (set_prods (set_accepted (setl s i li') (t :: accepted s)) (aset (prods s) p (Done t ROk)))
+        | None => None
+        end
+      | None => None
+      end
+    | _ => None
+    end
+  | PushCtxErr p =>
+    match pstate_of s p with
+    | Pending i t =>
+      if cancelled s then Some (set_failed (set_prods s (aset (prods s) p (Done t RCtxErr))) (t :: failed s))
+      else None
+    | _ => None
+    end
+  | PushTimeout p =>
+    match pstate_of s p with
+    | Pending i t => Some (set_failed (set_prods s (aset (prods s) p (Done t RTimeout))) (t :: failed s))
+    | _ => None
+    end
+  | Cancel => if cancelled s then None else Some (set_cancelled s true)
   | QTake i =>
     match nth_error (lanes s) i with
     | Some (mkLane (t :: b) QWait wi) => Some (setl s i (mkLane b (QTook t) wi))
@@ -67,8 +207,7 @@ Definition step (s : state) (l : label) : option state :=
   | QCount i =>
     match nth_error (lanes s) i with
     | Some (mkLane b (QTook t) wi) =>
-        let s1 := setl s i (mkLane b (QHeld t) wi) in
-        Some (mkSt (lanes s1) (cancelled s1) (S (cnt s1)) (accepted s1) (started s1) (finished s1))
+        let s1 := setl s i (mkLane b (QHeld t) wi) in Some (set_cnt s1 (S (cnt s1)))
     | _ => None end
   | QCheck i =>
     match nth_error (lanes s) i with
@@ -97,8 +236,7 @@ Definition step (s : state) (l : label) : option state :=
   | QDecr i =>
     match nth_error (lanes s) i with
     | Some (mkLane b QSent wi) =>
-        let s1 := setl s i (mkLane b QWait wi) in
-        Some (mkSt (lanes s1) (cancelled s1) (pred (cnt s1)) (accepted s1) (started s1) (finished s1))
+        let s1 := setl s i (mkLane b QWait wi) in Some (set_cnt s1 (pred (cnt s1)))
     | _ => None end
   | WCheck j =>
     match nth_error (lanes s) j with
@@ -114,21 +252,64 @@ Definition step (s : state) (l : label) : option state :=
       | Some (mkLane b qj WBlock) => Some (setl s j (mkLane b qj WDead))
       | _ => None end
     else None
-  | WEnd j =>
+  | WEnd j r =>
     match nth_error (lanes s) j with
     | Some (mkLane b qj (WRun t)) =>
         let s1 := setl s j (mkLane b qj WTop) in
-        Some (mkSt (lanes s1) (cancelled s1) (cnt s1) (accepted s1) (started s1) (t :: finished s1))
+        let s2 := set_finished s1 (t :: finished s1) in
+        Some (match r with Some v => set_panic s2 v | None => s2 end)
     | _ => None end
+  | StatusBegin o =>
+    match ostate_of s o with
+    | OIdle => Some (set_obs s (aset (obs s) o (OLen 0 0)))
+    | _ => None
+    end
+  | StatusReadLen o i =>
+    match ostate_of s o with
+    | OLen k a =>
+      if k =? i then
+        match nth_error (lanes s) i with
+        | Some li => Some (set_obs s (aset (obs s) o (OLen (S k) (a + length (buf li)))))
+        | None => None
+        end
+      else None
+    | _ => None
+    end
+  | StatusReadCnt o =>
+    match ostate_of s o with
+    | OLen k a =>
+      if length (lanes s) <=? k then Some (set_obs s (aset (obs s) o (OPanic (a + cnt s)))) else None
+    | _ => None
+    end
+  | StatusReadPanic o =>
+    match ostate_of s o with
+    | OPanic a => Some (set_snaps (set_obs s (aset (obs s) o OIdle)) ((o, a, last_panic s) :: snaps s))
+    | _ => None
+    end
+  end.
+
+Fixpoint run (s : state) (ls : list label) : option state :=
+  match ls with
+  | [] => Some s
+  | l :: r => match step s l with Some s' => run s' r | None => None end
   end.
 End Step.
 
 Definition init (n : nat) : state :=
-  mkSt (repeat (mkLane [] QWait WTop) n) false 0 [] [] [].
+  mkSt (repeat (mkLane [] QWait WTop) n) false 0 [] [] [] None [] [] [] [] [] [].
+
+(* ---------- observable projections ---------- *)
+Definition result_of (s : state) (p : nat) : option result :=
+  match pstate_of s p with Done _ r => Some r | _ => None end.
+Definition snapshots (s : state) : list (nat * option pv) :=
+  map (fun x => (snd (fst x), snd x)) (snaps s).
+Definition wtask (x : wpc) : list task := match x with WRun t => [t] | _ => [] end.
+Definition running (s : state) : list task := flat_map (fun l => wtask (w l)) (lanes s).
+(* what Status().PendingTask would be if it were read atomically *)
+Definition pending_of (s : state) : nat := list_sum (map (fun l => length (buf l)) (lanes s)) + cnt s.
 
 (* ---------- measure ---------- *)
 Definition qrank (x : qpc) := match x with QDead _ => 0 | QWait => 1 | QSent => 2 | QOffer _ => 6 | QTry _ => 7 | QHeld _ => 8 | QTook _ => 9 end.
 Definition wrank (x : wpc) := match x with WDead => 0 | WBlock => 1 | WTry => 2 | WTop => 3 | WRun _ => 4 end.
 Definition lrank (l : lane) := 9 * length (buf l) + qrank (q l) + wrank (w l).
 Definition measure (s : state) := list_sum (map lrank (lanes s)) + (if cancelled s then 0 else 1).
-
